@@ -96,8 +96,48 @@ let run_gs file =
       | _ -> ()) lines;
   Printf.printf "agree %d\n" !nok
 
+(* ---- local polynomial grids: exact surpluses / evaluation / certificate (C01, C04) ----
+   lg <id> <rule> <order> <d> <outs> pidx: i.. vals: v.. coef: c.. xs: x.. ys: y..
+   prints: lg <id> cert=<b> complete=<b> n=<points> coeferr=<max abs err / scale> evalerr=<...> nodeerr=<...> *)
+let run_local file =
+  let lines = read_lines file in
+  List.iter (fun l ->
+      match split_ws l with
+      | "lg" :: id :: rule :: order :: dd :: outs :: rest ->
+        (try
+           let m = keyed rest and d = int_of_string dd and outs = int_of_string outs in
+           let r = rule_of rule and order = z_of_int (int_of_string order) in
+           let pts = idxs d (get "pidx:" m) in
+           let n = List.length pts in
+           let vals = Array.of_list (List.map float_of_tok (get "vals:" m)) in
+           let coef = Array.of_list (List.map float_of_tok (get "coef:" m)) in
+           let xs = List.map float_of_tok (get "xs:" m) and ys = Array.of_list (List.map float_of_tok (get "ys:" m)) in
+           let scale = Array.fold_left (fun a v -> Float.max a (Float.abs v)) 1.0 vals in
+           let cert = hier_cert r order pts and complete = parent_complete r pts in
+           let coeferr = ref 0.0 and evalerr = ref 0.0 and nodeerr = ref 0.0 in
+           let xpts = chunks d xs in
+           for k = 0 to outs - 1 do
+             let assoc = List.mapi (fun i p -> (p, q2Qc (q_of_float vals.(i * outs + k)))) pts in
+             let s = surpluses r order pts assoc in
+             List.iteri (fun i p ->
+                 let sv = float_of_q (this (List.assoc p s)) in
+                 if Array.length coef = n * outs then coeferr := Float.max !coeferr (Float.abs (sv -. coef.(i * outs + k)) /. scale)) pts;
+             List.iteri (fun xi x ->
+                 let e = float_of_q (this (evalAt r order pts assoc (List.map q_of_float x))) in
+                 if Array.length ys > xi * outs + k then evalerr := Float.max !evalerr (Float.abs (e -. ys.(xi * outs + k)) /. scale)) xpts;
+             (* reproduction at the nodes, exactly, on the model *)
+             if cert then List.iteri (fun i p ->
+                 let e = evalAt r order pts assoc (List.map (fun z -> getNode r z) p) in
+                 let dv = float_of_q (this e) -. vals.(i * outs + k) in
+                 nodeerr := Float.max !nodeerr (Float.abs dv /. scale)) pts
+           done;
+           Printf.printf "lg %s cert=%b complete=%b n=%d coeferr=%h evalerr=%h nodeerr=%h\n" id cert complete n !coeferr !evalerr !nodeerr
+         with e -> Printf.printf "MISMATCH %s runner-exception %s\n" id (Printexc.to_string e))
+      | _ -> ()) lines
+
 let () =
   if Array.length Sys.argv > 2 && Sys.argv.(1) = "--gs" then (run_gs Sys.argv.(2); exit 0);
+  if Array.length Sys.argv > 2 && Sys.argv.(1) = "--local" then (run_local Sys.argv.(2); exit 0);
   let cases = read_lines Sys.argv.(1) and out = ref (read_lines Sys.argv.(2)) in
   let next () = match !out with l :: r -> out := r; l | [] -> "" in
   let nok = ref 0 in
